@@ -15,6 +15,7 @@
 package vsched
 
 import (
+	"time"
 	"fmt"
 	"runtime"
 	"runtime/debug"
@@ -198,6 +199,8 @@ func (x *Exec) Finish() {
 			t.run = 1
 		}
 	}
+	spins := 0
+	var f0 time.Time
 	for {
 		all := true
 		for _, t := range x.threads {
@@ -209,6 +212,14 @@ func (x *Exec) Finish() {
 			break
 		}
 		runtime.Gosched()
+		spins++
+		if spins&0xFF == 0xFF {
+			if f0.IsZero() {
+				f0 = time.Now()
+			} else if time.Since(f0) > StuckAfter {
+				x.stuck()
+			}
+		}
 	}
 	raceJoinAll(x)
 	if e == x {
@@ -216,10 +227,42 @@ func (x *Exec) Finish() {
 	}
 }
 
+// StuckAfter is how long one thread may run without reaching a scheduling point before OnStuck is
+// called. Steps between scheduling points take microseconds; a thread that is still running after this
+// long is in a loop that contains no synchronisation, I/O or channel operation at all (a busy loop),
+// which the controller can neither preempt nor end.
+var StuckAfter = 30 * time.Second
+
+// OnStuck is called (by the controller) with the name of the spinning thread, its last scheduling point and
+// a dump of all goroutine stacks; it must not return.
+var OnStuck func(thread, lastPoint, stacks string)
+
+//go:norace
+func (x *Exec) stuck() {
+	name, last := "?", "?"
+	if x.cur != nil {
+		name, last = x.cur.Name, x.cur.Desc
+	}
+	buf := make([]byte, 1<<20)
+	buf = buf[:runtime.Stack(buf, true)]
+	if OnStuck != nil {
+		OnStuck(name, last, string(buf))
+	}
+	panic("vsched: thread " + name + " runs without reaching a scheduling point (last: " + last + ")")
+}
+
 //go:norace
 func (x *Exec) controllerWait() {
-	for x.ctlRun == 0 {
+	var t0 time.Time
+	for n := 0; x.ctlRun == 0; n++ {
 		runtime.Gosched()
+		if n&0xFF == 0xFF {
+			if t0.IsZero() {
+				t0 = time.Now()
+			} else if time.Since(t0) > StuckAfter {
+				x.stuck()
+			}
+		}
 	}
 	x.ctlRun = 0
 	raceJoinAll(x)
